@@ -86,7 +86,7 @@ def check(ctx: Ctx) -> str:
     # did not create: the Namespace check (C03.R5) is what keeps it away from the render data
     from . import c03
 
-    ctx.run_imported("C03", {"R5"}, c03.check)
+    ctx.run_imported("C03", {"R5", "R8"}, c03.check)
     from .c22 import fresh_list_rule
 
     fresh_list_rule(ctx, "R6")
